@@ -26,6 +26,7 @@ def quiet():
     logger.setLevel(logging.ERROR)
 
 PROP = "C04"
+eval_cases_private = B.eval_cases_private
 
 
 # ======================================================================================================
@@ -172,6 +173,21 @@ def gen_cen(rng, depth, n, K, top=True, in_sum=False):
     if c in (3, 4):
         return ("escale", float(rng.choice([4., 0.25, 1., -1., 9.])), gen_cen(rng, depth - 1, n, K, top=False, in_sum=in_sum))
     return ("eadd", gen_cen(rng, depth - 1, n, K, top=False, in_sum=True), gen_cen(rng, depth - 1, n, K, top=False, in_sum=True))
+
+
+def inject_linear(rng, t, n, K, p=0.35):
+    """replace some FieldAdapter leaves by LINEAR differences (SumOperator with a negated summand), half of them
+    routed through a MultiDomain target (`a.ducktape_left('x') - b.ducktape_left('x')`)"""
+    if t[0] == "var":
+        if rng.random() < p:
+            kind = "lsub" if rng.random() < 0.6 else "lsubf"
+            a = B.gen_linear(rng, int(rng.integers(0, 3)), n, K)
+            b = B.gen_linear(rng, int(rng.integers(0, 3)), n, K)
+            return (kind, a, b)
+        return t
+    if t[0] == "vcg":
+        return t
+    return tuple(inject_linear(rng, x, n, K, p) if isinstance(x, (tuple, list)) and x and isinstance(x[0], str) else x for x in t)
 
 
 def gen_point(rng, n, K, t):
@@ -381,8 +397,71 @@ def attribute(impl, t, x, S, wm, check, o):
     return {"fn": "simplify_for_constant_input", "check": check, "root": t[0]}
 
 
+def vcg_complex_direct(inp):
+    """VariableCovarianceGaussianEnergy with a COMPLEX residual (sampling dtype complex128), optionally scaled /
+    under a StandardHamiltonian: for each of the two keys constant, the specialised energy against the original on
+    make_partial_var: value, gradient, metric applied to random tangents.  List of (check, detail)."""
+    import nifty.cl as ift
+    quiet()
+    n, uff, wrap, seed = inp["n"], bool(inp["uff"]), inp["wrap"], inp["seed"]
+    rng = np.random.default_rng([seed, 404])
+    dom = ift.DomainTuple.make(ift.UnstructuredDomain(n))
+    e = ift.VariableCovarianceGaussianEnergy(dom, "r", "i", np.complex128, use_full_fisher=uff)
+    if wrap == "scale":
+        e = 4.0 * e
+    elif wrap == "ham":
+        e = ift.StandardHamiltonian(e)
+    loc = ift.MultiField.from_dict({"r": ift.Field.from_raw(dom, rng.normal(size=n) + 1j * rng.normal(size=n)),
+                                    "i": ift.Field.from_raw(dom, rng.uniform(0.5, 3.0, size=n))})
+    fails = []
+    for cst in inp["consts"]:
+        var = "i" if cst == "r" else "r"
+        cstloc, varloc = loc.extract_by_keys([cst]), loc.extract_by_keys([var])
+        _, e0 = e.simplify_for_constant_input(cstloc)
+        full = e(ift.Linearization.make_partial_var(loc, [cst], want_metric=True))
+        part = e0(ift.Linearization.make_var(varloc, want_metric=True))
+        v0, v1 = complex(full.val.asnumpy()), complex(part.val.asnumpy())
+        off = 0.5 * float(np.vdot(cstloc[cst].asnumpy(), cstloc[cst].asnumpy()).real) if wrap == "ham" else 0.0
+        if abs(v1 + off - v0) > 1e-10 * (1 + abs(v0)):
+            fails.append(("value", "const=%s: specialised value %r (+ known offset %r), original %r" % (cst, v1, off, v0)))
+        elif off != 0.0 and abs(v1 - v0) > 1e-10 * (1 + abs(v0)):
+            fails.append(("value_ham", "const=%s: specialised StandardHamiltonian lacks the prior energy of the constant key" % cst))
+        g0, g1 = full.gradient, part.gradient
+        if not np.allclose(g0[var].asnumpy(), g1[var].asnumpy(), rtol=1e-10, atol=1e-12):
+            fails.append(("jacobian", "const=%s: gradient of the specialised energy differs from the original's variable block" % cst))
+        if np.any(g0[cst].asnumpy() != 0):
+            fails.append(("partial_var", "const=%s: gradient leaks into the constant key" % cst))
+        if (full.metric is None) != (part.metric is None):
+            fails.append(("metric", "const=%s: metric present for one of original / specialised only" % cst))
+        elif full.metric is not None:
+            for _ in range(3):
+                tv = rng.normal(size=n) + (1j * rng.normal(size=n) if var == "r" else 0.0)
+                t = ift.MultiField.from_dict({var: ift.Field.from_raw(dom, tv)}, domain=varloc.domain)
+                tf = ift.MultiField.from_dict({var: ift.Field.from_raw(dom, tv),
+                                               cst: ift.Field.from_raw(dom, np.zeros(n, dtype=cstloc[cst].dtype))}, domain=loc.domain)
+                m0, m1 = full.metric(tf)[var].asnumpy(), part.metric(t)[var].asnumpy()
+                if not np.allclose(m0, m1, rtol=1e-9, atol=1e-12):
+                    fails.append(("metric", "const=%s: specialised metric %r, original restricted %r" % (cst, m1.tolist(), m0.tolist())))
+                    break
+    return fails
+
+
+def vcg_complex_signature(inp, f):
+    if f[0] == "value_ham":
+        return {"fn": "StandardHamiltonian", "check": "value", "explained_by": "prior energy of the constant keys"}
+    if f[0] == "metric" and not inp["uff"] and f[1].startswith("const=r"):
+        # use_full_fisher=False with the residual constant is the open finding C04-F1 -- but only if the SAME case
+        # with use_full_fisher=True satisfies the property (so that nothing else hides behind it)
+        g = vcg_complex_direct(dict(inp, uff=True, consts=["r"]))
+        if not any(x[0] == "metric" for x in g):
+            return {"fn": "VariableCovarianceGaussianEnergy", "check": "metric", "use_full_fisher": False, "constant": "residual"}
+    return {"fn": "VariableCovarianceGaussianEnergy", "check": f[0], "complex": True, "use_full_fisher": bool(inp["uff"]), "wrap": inp["wrap"]}
+
+
 def run_direct(inp):
     quiet()
+    if inp.get("what") == "vcg_complex":
+        return [((f[0], None, f[1]), vcg_complex_signature(inp, f)) for f in vcg_complex_direct(inp)]
     t = B.tuple_tree(inp["tree"])
     impl = Impl(inp["n"], inp["K"])
     with np.errstate(all="ignore"):
@@ -429,6 +508,8 @@ class C04(C.Check):
             tries += 1
             n, K = int(rng.integers(1, 3)), int(rng.integers(2, 4))
             t = B.gen_tree(rng, int(rng.integers(2, 5)), n, K, "F" if rng.random() < 0.6 else "S")
+            if tries % 2 == 0:
+                t = inject_linear(rng, t, n, K)
             if len(tree_keys(t)) < 2:
                 continue
             x = B.gen_point(rng, n, K)
@@ -440,6 +521,8 @@ class C04(C.Check):
             tries += 1
             n, K = int(rng.integers(1, 3)), int(rng.integers(2, 4))
             t = gen_cen(rng, int(rng.integers(0, 3)), n, K)
+            if tries % 3 == 0:
+                t = inject_linear(rng, t, n, K)
             if len(tree_keys(t)) < 2:
                 continue
             x = gen_point(rng, n, K, t)
@@ -466,7 +549,7 @@ class C04(C.Check):
                     except Exception as e:
                         checks.append("false")
                         meta.append((ci, S, wm, "raised %s: %s" % (type(e).__name__, str(e)[:200])))
-        bad = C.eval_cases(self.prop, "corr", HEADER, checks)
+        bad = eval_cases_private(self.prop, HEADER, checks)
         for i in bad[:4]:
             ci, S, wm, nm = meta[i]
             c = cases[ci]
@@ -512,6 +595,10 @@ class C04(C.Check):
         for c in ctx.corpus():
             if c.get("kind") == "direct":
                 report({k: c[k] for k in ("tree", "x", "n", "K", "S", "wm")})
+        # complex residuals (the Coq model is real): variable-covariance Gaussian, both keys constant in turn
+        for i in range((6 if ctx.quick else 40) * budget):
+            report({"what": "vcg_complex", "n": 1 + i % 3, "uff": i % 4 != 3, "wrap": ["none", "scale", "ham"][i % 3],
+                    "consts": ["r", "i"], "seed": ctx.seed * 1000 + i})
         # the exact cases (their dyadic points) ...
         lim = (60 if ctx.quick else 600) * budget
         order = [h[1] for h in hints if h[0] == "case"] + list(range(len(self.cases)))
